@@ -142,13 +142,20 @@ PROPS["C08"] = {
 
 # ---------------------------------------------------------------- C09
 PROPS["C09"] = {
-    "level_text": "MIKEY: totality on every byte string <= 24 (quick) / 32 (thorough) bytes and marshal/unmarshal idempotence on the accepted set; value-level round trip of every well-formed message (0-2 crypto sessions, up to 2-3 payloads of the four kinds, KEMAC with 1-2 key-data sub-payloads with/without SPI, SP with 0-2 parameters) and purity of Marshal. Session and Transport headers: marshal->unmarshal identity over the header's grammar (ports 0..65535 one at a time, SSRC all 32 bits, TTL/interleaved 8 bits, all profile/protocol/delivery/mode combinations). Parsing determinism of Transport and Range under every map iteration order (engine option -mapperm). Range NPT: millisecond-resolution times round-trip exactly (exact FP for ms <= 255/2047, ideal-arithmetic for ms <= 2^30). Session totality on all strings <= 8/10 bytes.",
-    "level_note": "Trusted: strconv.FormatFloat/ParseFloat('f',-1,64) round-trips float64 exactly (stdlib contract, stubbed as an opaque inverse pair). Outside: RTP-Info, Authenticate/Authorization digest fields, KeyMgmt text wrapper, SMPTE/UTC ranges, session timeout > 99999 (decimal conversion of wide numbers is beyond the solvers), two fully symbolic ports at once.",
+    "level_text": "MIKEY: totality on every byte string <= 24 (quick) / 32 (thorough) bytes and marshal/unmarshal idempotence on the accepted set; value-level round trip of every well-formed message (0-2 crypto sessions, up to 2-3 payloads of the four kinds, KEMAC with 1-2 key-data sub-payloads with/without SPI, SP with 0-2 parameters) and purity of Marshal. RTP-Info (1-2 entries, optional seq / rtptime from value spreads plus every value < 100), WWW-Authenticate and Authorization (Basic and Digest, symbolic quoted fields incl. separators, optional opaque/stale/algorithm), KeyMgmt text wrapper: marshal->unmarshal identity and purity. Session and Transport headers: marshal->unmarshal identity over the header's grammar (ports 0..65535 one at a time, SSRC all 32 bits, TTL/interleaved 8 bits, all profile/protocol/delivery/mode combinations). Parsing determinism of Transport and Range under every map iteration order (engine option -mapperm). Range NPT: millisecond-resolution times round-trip exactly (exact FP for ms <= 255/2047, ideal-arithmetic for ms <= 2^30). Session totality on all strings <= 8/10 bytes.",
+    "level_note": "Trusted: strconv.FormatFloat/ParseFloat('f',-1,64) round-trips float64 exactly (stdlib contract, stubbed as an opaque inverse pair). Outside: UTC ranges, quoted fields longer than 1-2 bytes, fully symbolic 16/32-bit decimal fields in RTP-Info, session timeout > 99999 (decimal conversion of wide numbers is beyond the solvers), two fully symbolic ports at once.",
     "runs": [
         R("mikey-total", "pkg/mikey", "pkg/mikey", ["ZzC09MikeyTotal"], flags={"concoff": True}, quick_params={"P": 24}, thorough_params={"P": 32}),
         R("mikey-rt", "pkg/mikey", "pkg/mikey", ["ZzC09MikeyRT"], flags={"concoff": True}, params={"NP": 2, "RICHAT": 0}),
         R("mikey-rt-richlast", "pkg/mikey", "pkg/mikey", ["ZzC09MikeyRT"], flags={"concoff": True}, params={"NP": 2, "RICHAT": 1}, tiers=("thorough",)),
         R("mikey-rt-3", "pkg/mikey", "pkg/mikey", ["ZzC09MikeyRT"], flags={"concoff": True}, params={"NP": 3, "RICHAT": 1}, tiers=("thorough",)),
+        R("rtp-info-seq", "pkg/headers", "pkg/headers", ["ZzC09RTPInfoRT"], flags={"concoff": True, "qtimeout": 60000}, params={"SYM": 0},
+          quick_params={"N": 1, "SMALL": 99}, thorough_params={"N": 2, "SMALL": 99}),
+        R("rtp-info-time", "pkg/headers", "pkg/headers", ["ZzC09RTPInfoRT"], flags={"concoff": True, "qtimeout": 60000}, params={"SYM": 1},
+          quick_params={"N": 1, "SMALL": 99}, thorough_params={"N": 1, "SMALL": 999}),
+        R("authenticate", "pkg/headers", "pkg/headers", ["ZzC09AuthenticateRT"], flags={"concoff": True, "qtimeout": 60000}, quick_params={"L": 1}, thorough_params={"L": 2}),
+        R("authorization", "pkg/headers", "pkg/headers", ["ZzC09AuthorizationRT"], flags={"concoff": True, "qtimeout": 60000}, params={"L": 1}),
+        R("keymgmt", "pkg/headers", "pkg/headers", ["ZzC09KeyMgmtRT"], flags={"concoff": True, "qtimeout": 60000}, quick_params={"L": 1}, thorough_params={"L": 2}),
         R("session", "pkg/headers", "pkg/headers", ["ZzC09SessionRT", "ZzC09SessionTotal"], flags={"concoff": True, "qtimeout": 120000}, quick_params={"P": 8}, thorough_params={"P": 10}),
         R("transport-rt-combos", "pkg/headers", "pkg/headers", ["ZzC09TransportRT"], flags={"concoff": True, "qtimeout": 60000}, params={"FIELD": -1}),
     ] + [
